@@ -1,0 +1,13 @@
+//go:build verif
+
+package gnet
+
+// Lemma functions for /verif/gvc. They are never called; each exists so that a statement about
+// the composition of several functions is verified against those functions' contracts
+// (see zz_contracts_verif.go).
+
+func lemmaRoundRobinCyclic(lb *roundRobinLoadBalancer) (a, b *eventloop) {
+	a = lb.next(nil)
+	b = lb.next(nil)
+	return
+}
